@@ -40,6 +40,16 @@ def char_pred(F, closure_name):
             raise ValueError("comparison " + show(n))
         if k == "Unary" and n["op"] == "Not":
             return not ev(n["arg"], ch)
+        if k == "Lit" and lit(n) and lit(n)[0] == "bool":
+            return lit(n)[1]
+        if k == "Match" and q.var_id(n["scrut"]) == cid:
+            # `matches!(c, 'a'..='z' | '_')` and friends: the first arm whose pattern holds the char decides
+            for a in n["arms"]:
+                pt = strip_ref(a["pat"])
+                hit = pt.get("k") in ("Wild", "Bind") or ch in arm_chars(a["pat"])
+                if hit and (a.get("guard") is None or ev(a["guard"], ch)):
+                    return ev(a["body"], ch)
+            raise ValueError("no arm for %r" % ch)
         if k == "Call" and n.get("fn") and q.var_id(n["args"][0]) == cid:
             fn = n["fn"].split("::")[-1]
             o = ord(ch)
